@@ -59,6 +59,11 @@ Fixpoint seq (p q : prog) : prog :=
 Definition guarded (rest : prog) : prog := Draw SGlobal (fun b => if b =? 0 then rest else Draw SSeeded (fun _ => rest)).
 Definition propose_next : prog := Draw SSeeded (fun x => Emit x Ret).
 
+(* a host fact used as a COUNT: c (CPUs the process may use - a value of the global stream) decides how many values of the seeded stream are
+   consumed before the next proposal (restarts, candidates, draws sized by effective_n_jobs / cpu_count) *)
+Fixpoint skip (n : nat) (rest : prog) : prog := match n with O => rest | S m => Draw SSeeded (fun _ => skip m rest) end.
+Definition counted (rest : prog) : prog := Draw SGlobal (fun c => skip (Z.to_nat c) rest).
+
 (* number of values of the seeded stream a run consumes *)
 Fixpoint seeded_used (p : prog) (sd gl : stream) (i j : nat) : nat :=
   match p with
@@ -194,15 +199,17 @@ Definition fresh_search_site : site := {| s_owner := O_Any; s_key := S_FreshSear
 
 (* ---- environment reads *)
 Definition E_SetOrder := 0. Definition E_Hash := 1. Definition E_Id := 2. Definition E_Listing := 3. Definition E_Clock := 4.
-Definition E_Pid := 5. Definition E_Entropy := 6. Definition E_SharedState := 7.
-Definition F_LogOnly := 0. Definition F_PathOnly := 1. Definition F_Flows := 2. Definition F_Owned := 3.
+Definition E_Pid := 5. Definition E_Entropy := 6. Definition E_SharedState := 7. Definition E_Host := 8.
+Definition F_LogOnly := 0. Definition F_PathOnly := 1. Definition F_Flows := 2. Definition F_Owned := 3. Definition F_Parallelism := 4.
 
 Record esite := { e_owner : Z; e_key : Z; e_kind : Z; e_flow : Z }.
 
 Definition ereach (w : world) (c : cfg) (e : esite) : bool := owner_ok c (e_owner e) && key_ok w c (e_key e).
 (* benign: the value only reaches log messages or the name of a file in the log directory; for state received from the caller
-   (E_SharedState): the search works on its own deep copy (F_Owned) *)
-Definition env_benign (e : esite) : bool := (e_flow e =? F_LogOnly) || (e_flow e =? F_PathOnly) || (e_flow e =? F_Owned).
+   (E_SharedState): the search works on its own deep copy (F_Owned); for a fact of the host (E_Host: CPUs the process may use): it only
+   becomes a degree of parallelism (F_Parallelism) *)
+Definition env_benign (e : esite) : bool :=
+  (e_flow e =? F_LogOnly) || (e_flow e =? F_PathOnly) || (e_flow e =? F_Owned) || (e_flow e =? F_Parallelism).
 Definition env_ok (w : world) (c : cfg) (l : list esite) : bool := forallb (fun e => implb (ereach w c e) (env_benign e)) l.
 Definition esite_eqb (a b : esite) : bool := (e_owner a =? e_owner b) && (e_key a =? e_key b) && (e_kind a =? e_kind b) && (e_flow a =? e_flow b).
 Definition esite_in (e : esite) (l : list esite) : bool := existsb (esite_eqb e) l.
